@@ -77,9 +77,13 @@ func (d *deduplicator) notifyDKGResultSubmitted(
 ) bool {
 	d.dkgResultHashCache.Sweep()
 
-	cacheKey := newDKGResultSeed.Text(16) +
-		hex.EncodeToString(newDKGResultHash[:]) +
-		strconv.Itoa(int(newDKGResultBlock))
+	// The key parts are separated with a character that cannot occur in any
+	// of them. Without the separator, the variable-length seed and block
+	// number could shift against the hash and two different events could
+	// produce the same key.
+	cacheKey := newDKGResultSeed.Text(16) + ":" +
+		hex.EncodeToString(newDKGResultHash[:]) + ":" +
+		strconv.FormatUint(newDKGResultBlock, 10)
 
 	// Add reports whether the key was newly added to the cache. The check and
 	// the insertion are done in a single atomic step so that, when the same
